@@ -59,7 +59,9 @@ Definition ckfull (c : cli) : bool := Z.of_nat (length (ckb c)) >=? ckmax c.
 (* sendASDUInternal *)
 Definition csend_asdu (now : Z) (c : cli) (asdu : list Z) : cli * bool * list cobs :=
   if running c then
-    if ckfull c then (c, false, []) else let '(c', o) := csend_i now c asdu in (c', true, o)
+    if ckfull c then (c, false, [])
+    else if cwmode c =? 0 then let '(c', o) := csend_i now c asdu in (c', true, o)
+    else (c, false, cwr c (enc_i (cvs c) (cvr c) asdu))     (* the socket takes nothing: the frame is not sent, its number not used up, the call fails *)
   else (c, false, []).
 
 (* checkSequenceNumber: accepted iff N(R) lies between the oldest unacknowledged N(S) and V(S); everything below is released *)
